@@ -29,7 +29,18 @@ bool xv_is_default_locale(const Self* s, const XalanDOMChar* loc) __CPROVER_requ
 @@FN caseOrderConvert@@
 @@FN doCompare4@@
 @@FN call4@@
+/* the 3-argument form (no lang): default case order -> the shared default collator; any other case order -> a collator of its own for the default locale */
+bool g_route_default_locale;
+int xv_doCompareDefaultLocale(const Self* s, const XalanDOMChar* l, const XalanDOMChar* r, int co)
+__CPROVER_requires(1) __CPROVER_assigns(g_route, g_route_case, g_route_default_locale) __CPROVER_ensures(g_route == R_UNCACHED && g_route_case == co && g_route_default_locale == true) ;
+int xv_doCompare_on_shared_default(const Self* s, const XalanDOMChar* l, const XalanDOMChar* r, int co)
+__CPROVER_requires(/* the shared default collator is only ever used through doDefaultCompare: setting case-first on it would change every later default-order sort of this transformer (C06) */ 0)
+__CPROVER_assigns(g_route) __CPROVER_ensures(1) ;
+bool xv_is_valid(const Self* s) __CPROVER_requires(1) __CPROVER_assigns() __CPROVER_ensures(__CPROVER_return_value == true || __CPROVER_return_value == false) ;
+int xv_default_functor3(const XalanDOMChar* l, const XalanDOMChar* r, int co) __CPROVER_requires(1) __CPROVER_assigns(g_route) __CPROVER_ensures(g_route == R_NONE) ;
+@@FN call3@@
 void h_doCompare4(void) { int c, w; g_case_first = c; g_compared = false; CollatorType* k; int co; __CPROVER_assume(co >= 0 && co <= 2); g_want = WANT(co); doCompare4(0, k, 0, 0, co); }
+void h_call3(void) { g_route = R_NONE; g_route_default_locale = false; Self* s; int co; __CPROVER_assume(co >= 0 && co <= 2); call3(s, 0, 0, co); }
 void h_call4(void) { bool d; g_locale_is_default = XV_BOOL(d); g_route = R_NONE; Self* s; int co; __CPROVER_assume(co >= 0 && co <= 2); call4(s, 0, 0, 0, co); }
 '''
 R = ['CASTS', 'SCOPE',
@@ -41,11 +52,16 @@ R = ['CASTS', 'SCOPE',
      (r'(?<![\w.>])doDefaultCompare\(theLHS, theRHS\)', 'xv_doDefaultCompare(self, theLHS, theRHS)', (0, 1)),
      (r'(?<![\w.>])doCompareCached\(theLHS, theRHS, theLocale, theCaseOrder\)', 'xv_doCompareCached(self, theLHS, theRHS, theLocale, theCaseOrder)', (0, 1)),
      (r'(?<![\w.>])doCompare\(theLHS, theRHS, theLocale, theCaseOrder\)', 'xv_doCompareLocale(self, theLHS, theRHS, theLocale, theCaseOrder)', (0, 1)),
+     (r'(?<![\w.>])doCompare\(\s*theLHS,\s*theRHS,\s*m_defaultCollatorLocaleName\.c_str\(\),\s*theCaseOrder\)', 'xv_doCompareDefaultLocale(self, theLHS, theRHS, theCaseOrder)', (0, 1)),
+     (r'(?<![\w.>])doCompare\(\s*\*m_defaultCollator,\s*theLHS,\s*theRHS,\s*theCaseOrder\)', 'xv_doCompare_on_shared_default(self, theLHS, theRHS, theCaseOrder)', (0, 1)),
+     (r'(?<![\w.>])isValid\(\)', 'xv_is_valid(self)', (0, 1)),
+     (r'assert\(m_defaultCollator != 0\);', '', (0, 1)),
+     (r's_defaultFunctor\(', 'xv_default_functor3(', (0, 1)),
      (r'\bm_cacheCollators\b', 'self->m_cacheCollators', (0, 1)),
      (r'\};\s*\}\s*$', '}\n}', (0, 1))]
 UNIT = Unit(
     name='c16_collate',
-    props=['C16'],
+    props=['C16', 'C06'],
     functions=[
         Fn(IC, r'^caseOrderConvert\(XalanCollationServices::eCaseOrder\s+theCaseOrder\)', 'caseOrderConvert', 'static UColAttributeValue caseOrderConvert(XalanCollationServices_eCaseOrder theCaseOrder)', rules=R, nloops=0, reach=False),
         Fn(IC, r'^ICUBridgeCollationCompareFunctorImpl::doCompare\(\s*CollatorType&\s+theCollator,\s*const XalanDOMChar\*\s+theLHS,\s*const XalanDOMChar\*\s+theRHS,\s*XalanCollationServices::eCaseOrder\s+theCaseOrder\) const',
@@ -60,11 +76,20 @@ __CPROVER_assigns(g_route, g_route_case)
 __CPROVER_ensures(/* the shared default collator (whose case-first is never set) serves only the default locale with the default case order */
     (g_route == R_DEFAULT) == (theCaseOrder == XalanCollationServices_eDefault && g_locale_is_default == true))
 __CPROVER_ensures(/* every other comparison carries the key's own case order to the collator */ g_route != R_DEFAULT ==> (g_route_case == theCaseOrder && (g_route == R_CACHED || g_route == R_UNCACHED)))'''),
+        Fn(IC, r'^ICUBridgeCollationCompareFunctorImpl::operator\(\)\(\s*const XalanDOMChar\*\s+theLHS,\s*const XalanDOMChar\*\s+theRHS,\s*XalanCollationServices::eCaseOrder', 'call3',
+           'int call3(const Self* self, const XalanDOMChar* theLHS, const XalanDOMChar* theRHS, XalanCollationServices_eCaseOrder theCaseOrder)', rules=R, nloops=0,
+           contract='''__CPROVER_requires(g_route == R_NONE && g_route_default_locale == false && theCaseOrder >= 0 && theCaseOrder <= 2)
+__CPROVER_assigns(g_route, g_route_case, g_route_default_locale)
+__CPROVER_ensures(/* without lang: the shared default collator serves the default case order only; another case order gets a collator of its own for the default locale, with that case order */
+    theCaseOrder == XalanCollationServices_eDefault ? g_route == R_DEFAULT : (g_route == R_UNCACHED && g_route_case == theCaseOrder && g_route_default_locale == true))'''),
     ],
     template=TEMPLATE,
-    jobs=[Job('doCompare4', 'h_doCompare4', enforce=['doCompare4'], replace=['xv_set_attribute', 'xv_length', 'xv_collator_compare'], reach='all', timeout=120, min_obligations=3),
+    jobs=[Job('call3', 'h_call3', enforce=['call3'], replace=['xv_doDefaultCompare', 'xv_doCompareDefaultLocale', 'xv_doCompare_on_shared_default', 'xv_is_valid', 'xv_default_functor3'], reach='all', timeout=120, min_obligations=3),
+          Job('doCompare4', 'h_doCompare4', enforce=['doCompare4'], replace=['xv_set_attribute', 'xv_length', 'xv_collator_compare'], reach='all', timeout=120, min_obligations=3),
           Job('call4', 'h_call4', enforce=['call4'], replace=['xv_doDefaultCompare', 'xv_doCompareCached', 'xv_doCompareLocale', 'xv_is_default_locale'], reach='all', timeout=120, min_obligations=3)],
     mutants=[
+        Mutant('case_order_on_shared_default_collator', IC, r'(theCaseOrder\) const\s*\{\s*if \(theCaseOrder == XalanCollationServices::eDefault\)\s*\{\s*return doDefaultCompare\(theLHS, theRHS\);\s*\}\s*else\s*\{\s*return doCompare\(\s*)theLHS,\s*theRHS,\s*m_defaultCollatorLocaleName\.c_str\(\),\s*theCaseOrder\);',
+               r'\1*m_defaultCollator,\n                theLHS,\n                theRHS,\n                theCaseOrder);', expect='shared default collator is only ever used'),
         Mutant('case_first_only_when_explicit', IC, r'    theCollator\.setAttribute\(\s*UCOL_CASE_FIRST,\s*caseOrderConvert\(theCaseOrder\),\s*theStatus\);', '    if (theCaseOrder != XalanCollationServices::eDefault)\n    {\n        theCollator.setAttribute(\n                UCOL_CASE_FIRST,\n                caseOrderConvert(theCaseOrder),\n                theStatus);\n    }', expect='case order of THIS key'),
         Mutant('upper_lower_swapped', IC, r'(case XalanCollationServices::eLowerFirst:\s*return )UCOL_LOWER_FIRST', r'\1UCOL_UPPER_FIRST', expect='case order of THIS key'),
         Mutant('default_collator_for_any_locale', IC, r'if \(theCaseOrder == XalanCollationServices::eDefault &&\s*XalanDOMString::equals\(m_defaultCollatorLocaleName, theLocale\) == true\)', 'if (theCaseOrder == XalanCollationServices::eDefault)', expect='shared default collator'),
